@@ -65,22 +65,24 @@ func verifC14Bite(c, a, b bool) bool {
 }
 
 // verifC14Posix: '/'-separated components of bs. parent: some component is
-// ".."; self: some component is "." or empty (leading, trailing or doubled
-// separator).
-func verifC14Posix(bs []byte) (parent, self bool) {
+// ".."; dot: some component is "."; empty: some component is empty (leading,
+// trailing or doubled separator).
+func verifC14Posix(bs []byte) (parent, dot, empty bool) {
 	e0, d1, d2 := true, false, false
 	for _, c := range bs {
 		sep := c == '/'
-		dot := c == '.'
-		self = verifrt.Or(self, verifrt.And(sep, verifrt.Or(e0, d1)))
+		isDot := c == '.'
+		empty = verifrt.Or(empty, verifrt.And(sep, e0))
+		dot = verifrt.Or(dot, verifrt.And(sep, d1))
 		parent = verifrt.Or(parent, verifrt.And(sep, d2))
-		nd1 := verifrt.And(!sep, verifrt.And(e0, dot))
-		nd2 := verifrt.And(!sep, verifrt.And(d1, dot))
+		nd1 := verifrt.And(!sep, verifrt.And(e0, isDot))
+		nd2 := verifrt.And(!sep, verifrt.And(d1, isDot))
 		e0, d1, d2 = sep, nd1, nd2
 	}
-	self = verifrt.Or(self, verifrt.Or(e0, d1))
+	empty = verifrt.Or(empty, e0)
+	dot = verifrt.Or(dot, d1)
 	parent = verifrt.Or(parent, d2)
-	return parent, self
+	return parent, dot, empty
 }
 
 // verifC14NTFS: components are separated by '/' or '\\'. Of each component
@@ -204,12 +206,12 @@ func verifC14Pseudo(bs []byte) bool {
 }
 
 type verifC14Model struct {
-	slot                         bool // literally "refs/..." or one [A-Z_]+ component
-	abs                          bool // absolute or drive-prefixed
-	ctrl                         bool // a control character
-	pParent, nParent, hParent    bool
-	pSelf, nSelf, hSelf          bool
-	lowerOneLevel, hasBackslash  bool
+	slot                      bool // literally "refs/..." or one [A-Z_]+ component
+	abs                       bool // absolute or drive-prefixed
+	ctrl                      bool // a control character
+	pParent, nParent, hParent bool
+	pSelf, nSelf, hSelf       bool
+	hasBackslash              bool
 }
 
 func verifC14Resolve(bs []byte, free []bool) (m verifC14Model) {
@@ -224,9 +226,14 @@ func verifC14Resolve(bs []byte, free []bool) (m verifC14Model) {
 		m.ctrl = verifrt.Or(m.ctrl, verifrt.Or(c < 0x20, c == 0x7f))
 		m.hasBackslash = verifrt.Or(m.hasBackslash, c == '\\')
 	}
-	m.pParent, m.pSelf = verifC14Posix(bs)
+	var pDot, pEmpty bool
+	m.pParent, pDot, pEmpty = verifC14Posix(bs)
+	m.pSelf = verifrt.Or(pDot, pEmpty)
 	m.nParent, m.nSelf = verifC14NTFS(bs)
-	m.hParent, m.hSelf = verifC14Posix(verifC14HFSFilter(bs, free))
+	// A component made of ignorable code points only is not judged: what
+	// HFS+ does with it is not known and git 2.39.5 accepts such names
+	// (git update-ref refs/heads/<U+200C> works), so only ".", ".." count.
+	m.hParent, m.hSelf, _ = verifC14Posix(verifC14HFSFilter(bs, free))
 	return m
 }
 
